@@ -259,6 +259,50 @@ def wide_checks(chk, rng, found):
                     report(chk, found, c, dt, f"{name}: appending {z} all-zero columns changed the "
                            f"update of the other columns", {"A_J": base[:2], "A_Jz_head": (o[1][:3] if o[0] == 'ok' else o[:2])})
     chk.count({"wide": "zero columns 1000, 2^17"}, nontrivial=True)
+    # (b2) WIDE DENSE matrices whose last columns carry information (n = 1500, 2500: not a multiple of any
+    # power-of-two block size): column reversal, a rotation by 37 columns, and zero columns inserted IN FRONT.
+    # Blocked / chunked Gramians, unfold() dropping a tail, or anything keyed on column position shows here.
+    for n in (1500, 2500):
+        m = 3
+        Jn = np.array([[((i * 7 + j * 3 + (j * j) % 11 + (5 if j >= n - 200 and i == 1 else 0)) % 9) - 4 for j in range(n)]
+                       for i in range(m)], dtype=np.float64)
+        Jn[2, n - 100:] *= 3                                   # the tail matters
+        for name in DET_ALL:
+            p = A.gen_params(pyrandom.Random(2), name, m)
+            if name in ("UPGrad", "DualProj", "ConFIG", "AlignedMTL"):
+                p["pref"] = None
+            if name == "Krum":
+                p = {"f": 0, "k": 1}
+            if name == "TrimmedMean":
+                p = {"b": 1}
+            if name == "MGDA":
+                p["max_iters"] = min(p["max_iters"], 50)
+            for dt in ("f64", "f32"):
+                tJ = torch.tensor(Jn, dtype=A.DT[dt])
+                base = A.impl_call(name, p, None, dt, tensor=tJ)
+                if base[0] != "ok":
+                    report(chk, found, {"name": name, "params": p, "J": f"dense(3x{n})", "cat": "wide_dense"}, dt,
+                           f"{name} raised {base[1]} on a wide dense matrix", {})
+                    continue
+                sc = max(abs(x) for x in base[1]) or 1.0
+                variants = {"reversed": list(range(n - 1, -1, -1)), "rotated by 37": [(j + 37) % n for j in range(n)]}
+                for vname, perm in variants.items():
+                    o = A.impl_call(name, p, None, dt, tensor=tJ[:, perm].contiguous())
+                    chk.cov["evaluations"] += 1
+                    exp = [base[1][perm[j]] for j in range(n)]
+                    if o[0] != "ok" or not close(o[1], exp, tolc(name, dt) * 3, sc):
+                        err = max(abs(x - y) for x, y in zip(o[1], exp)) / sc if o[0] == "ok" else float("inf")
+                        report(chk, found, {"name": name, "params": p, "J": f"dense(3x{n})", "cat": "wide_dense"}, dt,
+                               f"{name}: columns {vname} changed the result on a dense 3x{n} matrix (rel {err:.3e})", {})
+                        break
+                tz = torch.zeros(m, n + 100, dtype=A.DT[dt])
+                tz[:, 100:] = tJ
+                o = A.impl_call(name, p, None, dt, tensor=tz)
+                chk.cov["evaluations"] += 1
+                if o[0] != "ok" or not close(o[1][100:], base[1], tolc(name, dt) * 3, sc) or max(abs(x) for x in o[1][:100]) > tolc(name, dt) * sc:
+                    report(chk, found, {"name": name, "params": p, "J": f"dense(3x{n})", "cat": "wide_dense"}, dt,
+                           f"{name}: 100 all-zero columns inserted IN FRONT of a dense 3x{n} matrix changed the update of the others", {})
+    chk.count({"wide": "dense 3x1500, 3x2500: reversal, rotation, zero columns in front"}, nontrivial=True)
     # (c) the pseudo-inverse / eigh based aggregators (+ Mean as a control) on MODEL-SIZED Jacobians, float32:
     # a well-conditioned and a moderately ill-conditioned (sigma ratio 6.7e-3, far above float32
     # resolution) two-row matrix followed by 2^17 and by 9.4e6 all-zero columns.  A rank decision whose
